@@ -8,3 +8,9 @@ func (c *Coordinator) VerifPending(sessionID string) bool {
 	defer c.processLock.Unlock()
 	return c.pendingProcesses[sessionID]
 }
+
+// VerifHoldProcessLock takes the coordinator's processLock and returns the function that gives it back.
+func (c *Coordinator) VerifHoldProcessLock() func() {
+	c.processLock.Lock()
+	return func() { c.processLock.Unlock() }
+}
